@@ -117,6 +117,7 @@ fn inject_bad(rng: &mut Rng, pkg: &mut APkg) -> Option<usize> {
     kind: DeclKind::Function { f: Fn { params: vec![], ret: None, is_async: false, is_gen: false, analysis: RetAnalysis::Single }, overloads: 0 },
     sig_refs: vec![],
     body_refs: vec![],
+    generics: String::new(),
   };
   pkg.files[i].items.insert(0, Item::Decl(d));
   Some(i)
